@@ -191,6 +191,7 @@ class Exec:
         self.fresh_n = 0
         self.depth = 0
         self.notes = []
+        self.negraise_ids = set()
         self.merge = False      # state-merging mode (generated straight-line code): no forks on if / ifexp / and / or / assert
         self.guards = []        # conditions of the merged branches currently being executed
 
@@ -230,7 +231,7 @@ class Exec:
         self.solver.pop()
         return r != z3.unsat
 
-    def assume(self, c):
+    def assume(self, c, tag=None):
         if isinstance(c, Sym):
             c = bool_term(c)
         elif isinstance(c, bool):
@@ -238,7 +239,13 @@ class Exec:
                 raise PathAbort()
             return
         self.pc.append(c)
+        if tag == 'negraise':
+            self.negraise_ids.add(c.get_id())
         self.solver.add(c)
+
+    def pc_core(self):
+        """Path condition without the 'no collected exception happened' assumptions."""
+        return [c for c in self.pc if c.get_id() not in self.negraise_ids]
 
     def choose(self, n, tag=None):
         """Non-deterministic choice among n alternatives (forks)."""
@@ -281,7 +288,7 @@ class Exec:
         if z3.is_false(full):
             return
         self.ghost.setdefault('raises', []).append((label, exc, full))
-        self.assume(z3.Not(full))
+        self.assume(z3.Not(full), tag='negraise')
 
     def sym_cond(self, test, fr):
         """Evaluate a condition without forking (merge mode): Python bool or Sym bool."""
@@ -302,6 +309,15 @@ class Exec:
         """Fork over the alternatives of a guarded union."""
         while isinstance(v, GV):
             alts = v.alts
+            if self.merge and self.guards:
+                # inside a merged branch: keep only the alternatives compatible with the branch condition
+                gc = self.guard_conj()
+                feas = [(g, val) for g, val in alts if self._feasible(z3.And(gc, g))]
+                if len(feas) == 1:
+                    v = feas[0][1]
+                    continue
+                if feas and len(feas) < len(alts):
+                    alts = feas
             chosen = None
             for g, val in alts[:-1]:
                 if self.branch(g):
